@@ -10,6 +10,8 @@ package main
 //   * shortestSupportedHashStringSize,
 //   * the threshold above which a digest function gets an explicit ByteStream
 //     path midfix, the "blobs" / "compressed-blobs/" midfixes,
+//   * whether GetByteStreamReadPath/WritePath join their elements with
+//     path.Join (which cleans "." and "..") or plainly (formatterCleans),
 //   * reservedInstanceNameKeywords,
 //   * the REv2 compressor enumeration (from the remote-apis module version
 //     pinned by /repo/go.mod, the same package the code ranges over).
@@ -366,6 +368,69 @@ func init() {
 			b.WriteString("def identityMidfix : List Char := " + leanChars(idMid) + "\n")
 			b.WriteString("def compressedPrefix : List Char := " + leanChars(prefix) + "\n\n")
 
+			// ---- how the ByteStream formatters join their elements
+			// Recognised shapes of `return X(elems...)` in GetByteStreamReadPath/WritePath:
+			//   X = path.Join                         -> cleaning (path.Clean removes "." and "..")
+			//   X = a function of digest.go whose body uses strings.Join and neither path.Join nor
+			//       path.Clean                        -> plain join of the non-empty elements
+			// anything else is a translation failure.
+			classify := func(name string) (bool, error) {
+				fd := findFunc(df, "Digest", name)
+				if fd == nil || len(fd.Body.List) == 0 {
+					return false, fmt.Errorf("%s not found", name)
+				}
+				rs, ok := fd.Body.List[len(fd.Body.List)-1].(*ast.ReturnStmt)
+				if !ok || len(rs.Results) != 1 {
+					return false, fmt.Errorf("%s: last statement is not a single return", name)
+				}
+				call, ok := rs.Results[0].(*ast.CallExpr)
+				if !ok {
+					return false, fmt.Errorf("%s: return value is not a call", name)
+				}
+				uses := func(n ast.Node, pkg, fn string) bool {
+					found := false
+					ast.Inspect(n, func(x ast.Node) bool {
+						if se, ok := x.(*ast.SelectorExpr); ok {
+							if id, ok := se.X.(*ast.Ident); ok && id.Name == pkg && se.Sel.Name == fn {
+								found = true
+							}
+						}
+						return true
+					})
+					return found
+				}
+				switch fn := call.Fun.(type) {
+				case *ast.SelectorExpr:
+					if id, ok := fn.X.(*ast.Ident); ok && id.Name == "path" && fn.Sel.Name == "Join" {
+						return true, nil
+					}
+				case *ast.Ident:
+					helper := findFunc(df, "", fn.Name)
+					if helper != nil {
+						if uses(helper, "path", "Join") || uses(helper, "path", "Clean") {
+							return true, nil
+						}
+						if uses(helper, "strings", "Join") {
+							return false, nil
+						}
+					}
+				}
+				return false, fmt.Errorf("%s: unrecognised way of joining the path elements", name)
+			}
+			cr, err := classify("GetByteStreamReadPath")
+			if err != nil {
+				return "", nil, err
+			}
+			cw, err := classify("GetByteStreamWritePath")
+			if err != nil {
+				return "", nil, err
+			}
+			if cr != cw {
+				return "", nil, fmt.Errorf("GetByteStreamReadPath and GetByteStreamWritePath join their elements differently")
+			}
+			b.WriteString("/-- `GetByteStreamReadPath`/`WritePath` join their elements with `path.Join` (which cleans `.`/`..`)\nrather than with a plain join of the non-empty elements. -/\n")
+			b.WriteString(fmt.Sprintf("def formatterCleans : Bool := %v\n\n", cr))
+
 			// ---- compressors: every non-IDENTITY value of the REv2 enumeration, lower-cased
 			var cvals []int
 			for v := range remoteexecution.Compressor_Value_name {
@@ -415,7 +480,7 @@ func init() {
 			b.WriteString("def reservedKeywords : List (List Char) :=\n  [" + strings.Join(krows, ",\n   ") + "]\n\n")
 			b.WriteString("end BB.Gen.Digest\n")
 			return b.String(), []string{"SupportedDigestFunctions", "getBareFunction", "bareFunction literals",
-				"shortestSupportedHashStringSize", "init (midfixes)", "reservedInstanceNameKeywords", "Compressor_Value_name"}, nil
+				"shortestSupportedHashStringSize", "init (midfixes)", "GetByteStreamReadPath/WritePath (join shape)", "reservedInstanceNameKeywords", "Compressor_Value_name"}, nil
 		},
 	})
 }
